@@ -5,9 +5,11 @@ import (
 	"context"
 	"crypto/sha1"
 	"fmt"
+	"go/types"
 	"os"
 	"os/exec"
 	"path/filepath"
+	"sort"
 	"strings"
 	"sync"
 	"time"
@@ -38,7 +40,9 @@ var solvers = map[string]solverSpec{
 
 func (ob *Obligation) smt(withModel bool) string { return ob.smtOpt(withModel, false) }
 
-func hasQuant(s string) bool { return strings.Contains(s, "(forall ") || strings.Contains(s, "(exists ") }
+func hasQuant(s string) bool {
+	return strings.Contains(s, "(forall ") || strings.Contains(s, "(exists ")
+}
 
 func (ob *Obligation) smtOpt(withModel bool, relaxed bool) string {
 	fc := ob.fc
@@ -50,6 +54,25 @@ func (ob *Obligation) smtOpt(withModel bool, relaxed bool) string {
 	sb.WriteString("; path " + ob.Path + "\n")
 	sb.WriteString("(set-option :produce-models true)\n(set-logic ALL)\n")
 	sb.WriteString(fc.d.Text())
+	sb.WriteString(fc.typeFacts())
+	// assumed axioms: only those that share an uninterpreted spec symbol with this query
+	var body strings.Builder
+	for _, a := range fc.axioms {
+		body.WriteString(a.S)
+	}
+	for _, p := range ob.PC {
+		body.WriteString(p.S)
+	}
+	body.WriteString(ob.Goal.S)
+	bodyS := body.String()
+	for _, a := range fc.globalAxioms {
+		if relaxed && hasQuant(a.S) {
+			continue
+		}
+		if sharesSymbol(a.S, bodyS) {
+			sb.WriteString("(assert " + a.S + ")\n")
+		}
+	}
 	for _, a := range fc.axioms {
 		if relaxed && hasQuant(a.S) {
 			continue
@@ -258,4 +281,62 @@ func trimOut(s string) string {
 		return s[:4000] + "\n...[truncated]"
 	}
 	return s
+}
+
+// typeFacts: ground facts about the type identifiers known to this run (kind of each type,
+// whether it is a map type, whether values of it are comparable).
+func (fc *FuncCtx) typeFacts() string {
+	u := fc.u
+	var sb strings.Builder
+	_, hasKind := fc.d.decl["tid_kind"]
+	_, hasMap := fc.d.decl["is_map_type"]
+	_, hasCmp := fc.d.decl["known_comparable"]
+	ids := make([]int, 0, len(u.typeByID))
+	for id := range u.typeByID {
+		ids = append(ids, id)
+	}
+	sort.Ints(ids)
+	for _, id := range ids {
+		t := u.typeByID[id]
+		k := map[string]int{"bool": 1, "str": 2, "int": 3, "f64": 4, "ref": 5, "fn": 6, "oth": 7}[fc.anyKind(t)]
+		if isPlain(t, types.Bool) {
+			k = 1
+		} else if isPlain(t, types.String) {
+			k = 2
+		} else if k == 1 || k == 2 {
+			k = 7 // named bool/string types are boxed
+		}
+		if hasKind {
+			fmt.Fprintf(&sb, "(assert (= (tid_kind %d) %d))\n", id, k)
+		}
+		if hasMap {
+			_, isMap := t.Underlying().(*types.Map)
+			fmt.Fprintf(&sb, "(assert (= (is_map_type %d) %v))\n", id, isMap)
+		}
+		if hasCmp {
+			fmt.Fprintf(&sb, "(assert (= (known_comparable %d) %v))\n", id, types.Comparable(t))
+		}
+	}
+	return sb.String()
+}
+
+
+// sharesSymbol: some sf_ symbol of the axiom occurs in the text.
+func sharesSymbol(axiom, text string) bool {
+	i := 0
+	for {
+		j := strings.Index(axiom[i:], "sf_")
+		if j < 0 {
+			return false
+		}
+		j += i
+		k := j
+		for k < len(axiom) && (axiom[k] == '_' || axiom[k] >= 'a' && axiom[k] <= 'z' || axiom[k] >= 'A' && axiom[k] <= 'Z' || axiom[k] >= '0' && axiom[k] <= '9') {
+			k++
+		}
+		if strings.Contains(text, axiom[j:k]) {
+			return true
+		}
+		i = k
+	}
 }
